@@ -36,6 +36,7 @@ pub fn render(s: &Value, marker: &Path) -> String {
             "badquote" => "echo \"unterminated",
             "unknowncmd" => "nosuchcommand x",
             "none" => "",
+            "pre" => "!print pp",
             "out" => "res2 =",
             "OUT" => "Res2 =",
             "lbl" => ":lbl2",
@@ -109,7 +110,7 @@ pub fn replay(args: &[String]) {
             if !missing && !has_child && ["file", "-e", "--eval"].contains(&form.as_str()) {
                 let _ = std::fs::remove_file(&marker);
                 let (lib_ok, lib_out) = library(&text, if form == "file" { Some(&script_path) } else { None });
-                let cli_out: String = stdout.lines().filter(|l| !l.starts_with("Error:")).map(|l| format!("{}\n", l)).collect();
+                let cli_out: String = stdout.lines().filter(|l| !l.starts_with("Error:") && l.trim() != "pp").map(|l| format!("{}\n", l)).collect();
                 let lib_norm: String = lib_out.lines().map(|l| format!("{}\n", l)).collect();
                 if lib_ok != status0 { why.push(format!("library run ok={} but exit status {:?}", lib_ok, o.status.code())); }
                 if cli_out != lib_norm { why.push(format!("stdout {:?} differs from the library's output {:?}", cli_out, lib_norm)); }
@@ -142,8 +143,8 @@ pub fn record(args: &[String]) {
     let mut s = Summary::new();
     for _ in 0..n {
         let len = 1 + r.below(10);
-        let mut st: Vec<&str> = (0..len).map(|_| *r.pick(&["echo", "echo", "echo", "echo", "xecho", "crash", "exit3", "exit256", "exit0", "badquote", "unknowncmd", "ECHO", "none", "out", "out", "OUT", "lbl", "lbl", "LBL"])).collect();
-        if ["out", "OUT", "lbl", "LBL"].contains(&st[0]) { st[0] = "none"; }
+        let mut st: Vec<&str> = (0..len).map(|_| *r.pick(&["echo", "echo", "echo", "echo", "xecho", "crash", "exit3", "exit256", "exit0", "badquote", "unknowncmd", "ECHO", "none", "out", "out", "OUT", "lbl", "lbl", "LBL", "pre"])).collect();
+        if ["out", "OUT", "lbl", "LBL", "pre"].contains(&st[0]) { st[0] = "none"; }
         let missing = r.chance(1, 15);
         let script = json!({"st": st, "label": *r.pick(&["none", "lower", "Upper"]), "out": *r.pick(&["none", "none", "lower", "Upper"]), "missing": missing});
         let form = if missing { *r.pick(&["file", "-l", "--lint"]) } else { *r.pick(&["file", "file", "-e", "--eval", "-l", "--lint", "--version", "--help", "-h"]) };
@@ -162,7 +163,7 @@ pub fn record(args: &[String]) {
         let mut same = true;
         if !missing && !st.contains(&"xecho") && ["file", "-e", "--eval"].contains(&form) {
             let (lib_ok, lib_out) = library(&text, if form == "file" { Some(&script_path) } else { None });
-            let cli_out: String = stdout.lines().filter(|l| !l.starts_with("Error:")).map(|l| format!("{}\n", l)).collect();
+            let cli_out: String = stdout.lines().filter(|l| !l.starts_with("Error:") && l.trim() != "pp").map(|l| format!("{}\n", l)).collect();
             let lib_norm: String = lib_out.lines().map(|l| format!("{}\n", l)).collect();
             same = lib_ok == (o.status.code() == Some(0)) && cli_out == lib_norm;
         }
